@@ -118,7 +118,7 @@ def run_c06(ctx):
                  ("dataset", 1), ("int", 1), ("bool", 1), ("array-constdim", 1), ("holes", 1)]
     m = CropMachine(ctx, kinds=kinds, max_n=16, max_batches=6, farmer_roles=[role],
                     allow_cases=(role != "sampler"), ext_choice=True,
-                    world_cfg={"mtime_granularity": "tape"})
+                    world_cfg={"mtime_granularity": "tape"}, farmer_ctor_choice=True)
     w = m.w
     sw = m.sc.sweep
     kind = m.sc.kind
